@@ -500,14 +500,15 @@ Proof.
 Qed.
 
 (* in the right-hand branch of an `if` of `ft`, the class would have to be outside the list *)
-Ltac not_this_class Hc :=
-  exfalso; flat;
-  match goal with E : JObj _ = JObj _ |- _ => injection E as <- end;
-  match goal with L : lookup "class" _ = Some _ |- _ => rewrite Hc in L; injection L as <- end;
-  repeat match goal with D : _ \/ _ |- _ => destruct D as [D|D] end;
-  try contradiction;
-  match goal with D : _ = false |- _ => vm_compute in D; discriminate D end.
-Ltac this_class H Hc := destruct H as [H|H]; [flat; unfold VK; assumption | not_this_class Hc].
+Ltac not_this_class X Hc :=
+  exfalso;
+  let m' := fresh "m'" in let E := fresh "E" in let x' := fresh "x'" in
+  let L := fresh "L" in let D := fresh "D" in
+  destruct X as [[(m' & E & [(x' & L & D)|[]])|[]] _];
+  injection E as <-; rewrite Hc in L; injection L as <-;
+  destruct D as [D|[D|[]]]; vm_compute in D; discriminate D.
+Ltac this_class H Hc :=
+  destruct H as [H|H]; [destruct H as [_ H]; exact H | not_this_class H Hc].
 
 Theorem ft_dispatch j : VK (FT "ft") j ->
   exists m c, j = JObj m /\ lookup "class" m = Some (JStr c) /\ In c class_names /\
@@ -527,7 +528,7 @@ Proof.
   repeat split; intros Hc; simpl in Hc;
     repeat (destruct Hc as [<-|Hc]; [|try contradiction]);
     match goal with
-    | X : _ /\ V S3 (SRef ?k) (JObj m) \/ _ |- V S3 (SRef ?k) (JObj m) => this_class X Hx
+    | X : _ /\ V S3 (SRef ?k) ?jj \/ _ |- V S3 (SRef ?k) ?jj => this_class X Hx
     end.
 Qed.
 
@@ -806,5 +807,38 @@ Proof.
   - intros x Hx. exact (trace_type_features_shape x m Hx HV).
   - opt. eapply named_map_of; eauto; [discriminate|exact clock_type_shape].
   - req. eapply named_map_of; eauto. exact dst_shape.
+  - use_keys.
+Qed.
+
+Theorem trace_shape j : VK (CF "trace") j -> trace_doc false j.
+Proof.
+  unfold VK. intros H. denote_in H (unf_in [CF "trace"]) 8. flat.
+  to_obj j. eexists; split; [reflexivity|]. repeat split.
+  - req. vk trace_type_shape.
+  - opt. vk opt_env_shape.
+Qed.
+
+Ltac to_objx x :=
+  match goal with T : has_type_in x [TObj] = true |- _ =>
+    let m := fresh "m" in destruct (has_type_obj _ T) as [m ->]; inst; flat; clean end.
+
+(* the effective configuration object: `_SchemaValidator.validate(node, 'config/3/config')` *)
+Theorem config_shape j : VK "config/3/config#" j -> config_doc false j.
+Proof.
+  unfold VK. intros H. denote_in H (unf_in ["config/3/config#"]) 16. flat.
+  to_obj j. eexists; split; [reflexivity|]. repeat split.
+  - req. vk trace_shape.
+  - opt. to_objx x. eexists; split; [reflexivity|]. repeat split; [|use_keys].
+    opt. to_objx x0. eexists; split; [reflexivity|]. repeat split; [| |use_keys].
+    + opt. the_or.
+      * left. vk prefix_prop_shape.
+      * right. to_objx x1. eexists; split; [reflexivity|]. repeat split.
+        -- req. vk iden_shape.
+        -- req. match goal with T : has_type_in ?y [TStr] = true |- _ => exact (has_type_str _ T) end.
+        -- use_keys.
+    + opt. to_objx x1. eexists; split; [reflexivity|]. repeat split.
+      * opt. match goal with T : has_type_in ?y [TBool] = true |- _ => exact (has_type_bool _ T) end.
+      * opt. match goal with T : has_type_in ?y [TBool] = true |- _ => exact (has_type_bool _ T) end.
+      * use_keys.
   - use_keys.
 Qed.
